@@ -365,7 +365,9 @@ func (st *Runtime) executeYieldBlock(block *BlockNode, blockParam, yieldParam *B
 
 	needNewScope := len(blockParam.List) > 0 || len(yieldParam.List) > 0
 	if needNewScope {
-		st.newScope()
+		// the arguments are evaluated in the caller's scope, before any of them is bound:
+		// their order does not matter and none of them sees another one
+		args := make([]reflect.Value, len(yieldParam.List))
 		for i := 0; i < len(yieldParam.List); i++ {
 			p := &yieldParam.List[i]
 
@@ -373,7 +375,11 @@ func (st *Runtime) executeYieldBlock(block *BlockNode, blockParam, yieldParam *B
 				block.errorf("missing name for block parameter '%s'", p.Identifier)
 			}
 
-			st.variables[p.Identifier] = st.evalPrimaryExpressionGroup(p.Expression)
+			args[i] = st.evalPrimaryExpressionGroup(p.Expression)
+		}
+		st.newScope()
+		for i := 0; i < len(yieldParam.List); i++ {
+			st.variables[yieldParam.List[i].Identifier] = args[i]
 		}
 		for i := 0; i < len(blockParam.List); i++ {
 			p := &blockParam.List[i]
